@@ -8,7 +8,10 @@ claim('C09', 'model_checking',
       'Bounded model checking of the real TaskQueue: every history of <=4 (quick) / <=5 (thorough) operations over '
       'the full operation alphabet and 3 tasks, with symbolic priorities (ties included), is compared with a '
       'sorted-list reference by z3 validity queries; plus an inductive step from an arbitrary invariant-satisfying '
-      'heap of <=3/4 entries, which extends the claim to histories of any length within that heap size.',
+      'heap of <=3/4 entries, which extends the claim to histories of any length within that heap size. Items are '
+      'handed over as equal-but-not-identical objects. The real Process._shutdown drain with exit actions that add, '
+      'move or remove actions while it runs; Ppar streams with symbolic child durations (one stream, two alive at '
+      'once, an abandoned one, the same Ppar twice inside another): every child event exactly once at its own time.',
       _TB + '; heapq and list comparison are executed, not modelled.',
       'symbolic execution of the real class (concolic z3 proxies) + per-path SMT validity; inductive step over the '
       'representation invariant', 'DESIGN.md 3/C09')
@@ -22,7 +25,9 @@ claim('C16', 'model_checking',
       'arbitrary cursor over the whole 26-bit window decided by z3, plus z3 lemmas giving pairwise distinctness over '
       'a full window. Server level: for small option values (audio/control buses, buffers, in/out channels, reserved '
       'counts, max_logins 1..3, every client id) every index a Server hands out until exhaustion lies inside the '
-      'server\'s range for that resource, ranges of different client ids are disjoint and each client gets its share.',
+      'server\'s range for that resource, ranges of different client ids are disjoint and each client gets its share. '
+      'Object level: every history of 4..5 operations (new, free of any object made so far -- also one already '
+      'freed) on Buffer, AudioBus and ControlBus objects: no new object gets an index a live one owns.',
       _TB + '; the block-allocator part is finite-domain: the decision tree enumerates it completely and the solver '
       'only decides the node-id obligations.',
       'decision-tree state exploration of the real allocator (fixpoint) + SMT validity (LIA) for NodeIDAllocator',
@@ -33,8 +38,8 @@ claim('C12', 'other',
       'rate == tempo, next_time_on_grid earliest congruent beat >= reference counted from the last meter change, '
       'play(quant) scheduling there, bar/beat inverses, next_bar) is one z3 validity query over the terms computed by '
       'the real TempoClock methods from an ARBITRARY invariant-satisfying state (all fields, logical and physical time '
-      'symbolic reals); the setters are proved to re-establish the invariant, so the laws hold after histories of any '
-      'length. quant and beats_per_bar in the floor-based laws range over a stated grid.',
+      'symbolic reals); the setters are proved to re-establish the invariant (already inside the \'meter\' notification '
+      'a dependant receives), so the laws hold after histories of any length. quant and beats_per_bar in the floor-based laws range over a stated grid.',
       _TB + '; main.elapsed_time and the current thread are stubs returning arbitrary reals (physical >= logical).',
       'symbolic execution of the real TempoClock methods (z3 Real terms) + SMT validity per law (NRA, ToInt witnesses)',
       'DESIGN.md 3/C12')
@@ -187,7 +192,10 @@ claim('C17', 'model_checking',
       'nested lists only as completion blobs) and an id ledger (only own ids; creation carries the own id, action '
       'and target; free emits exactly the owned ids once; allocator takes numbers back; bus ranges disjoint); a '
       'bind() block must reach the interface as one bundle per segment between syncs in issue order, nothing after '
-      'an exception. Control values are symbolic reals (argument equalities decided by z3).',
+      'an exception. Control values are symbolic reals (argument equalities decided by z3). Every spelling of every '
+      'add action reaches the wire as the server\'s number; every constructor form (Synth(), new_paused, grain, after, '
+      'before, head, tail, replace, groups, buffers, bus and node commands) with a target on a second server sends to '
+      'that server\'s address with ids from that server\'s allocators, inside and outside bind().',
       _TB + '; finite control (operation, target, variant) is enumerated by the decision tree; the harness plays the '
       'server for /sync (answers /synced through the receive functions).',
       'decision-tree model checking of real client objects against a command schema table and id ledger; symbolic '
@@ -204,7 +212,9 @@ claim('C18', 'model_checking',
       'message, time, sender, port; every combination of source / receive-port filters x sender host / port x receiving '
       'port; (c) one iteration of the real bundle-element loop from an arbitrary position with an '
       'arbitrary int32 size: z3 proves the position strictly increases or the loop leaves (models replayed as real '
-      'datagrams under a watchdog); (d) SystemAction / NotificationCenter histories vs an ordered list; plus CrossHair '
+      'datagrams under a watchdog); (d) SystemAction / ServerAction / CmdPeriod / NotificationCenter histories vs an '
+      'ordered list, also with an action that unregisters a later one while the registry runs; (e) the real UDP '
+      'receive loop on a scripted socket; plus CrossHair '
       'bug hunting: no datagram of <= 20 bytes raises into the receiver.',
       _TB + '; the regex->z3 converter and the OSC 1.0 reading stated in the evidence.',
       'SMT regular-language equivalence + decision-tree model checking of the real dispatchers + SMT ranking obligation',
@@ -233,17 +243,20 @@ claim('C13', 'translation_validation',
       'elements and symbolic bounded repeats/offsets/lengths/counts (finite and infinite repeats): the real stream is '
       'compared with an independent denotational interpreter -- same length and z3-equal elements on every path -- for '
       'two streams of the same pattern object, one consumed around the other, and the pattern must stay unchanged; '
+      'every template is also embedded in a sequence in front of an element that returns its input value and driven '
+      'with distinct input values (the element receives the value of its own step); '
       'seeded random patterns: same seed, same sequence, no interference.',
       _TB + '; the reference interpreter den() in vf/props/c13.py is written from the class documentation.',
       'symbolic execution of the real pattern streams + SMT equality against a denotational reference',
       'DESIGN.md 3/C13')
 
 claim('C10', 'model_checking',
-      'Product of two symbolic executions of ONE program text (16 programs quick / 25 thorough: two routines with '
+      'Product of two symbolic executions of ONE program text (17 programs quick / 26 thorough: two routines with '
       'every delta symbolic, single-routine time arithmetic with tempo / etempo / beats re-basing, and discrete '
       'features -- seeded random draws with symbolic arguments, Condition wait/signal, pause/resume, stop, child '
       'routine, re-seeding, a tempo / beats change while another routine waits, negative latency, a non-numeric yield, '
-      'a plain function scheduled on the clock -- on SystemClock and TempoClock): the NRT process explores the real ClockScheduler and '
+      'a plain function scheduled on the clock, a seeded routine reset and played again by another one, next_bar() '
+      'on and off a bar line after a meter change -- on SystemClock and TempoClock): the NRT process explores the real ClockScheduler and '
       'emits per path an SMT-LIB summary (path condition + every logged value + every (time, bundle) of '
       'main.process().list); the RT process explores the real clock run loops in the co-simulation with arbitrary '
       'wake-up latency, decodes the datagrams captured at OscInterface._send with the independent OSC reader, and '
@@ -280,7 +293,9 @@ claim('C14', 'model_checking',
       'played inside a routine: exactly one /s_new at logical time + latency with instrument, fresh node id, add action, '
       'group and the event\'s value for each instrument control the event defines; one gate-off later by sustain iff the '
       'instrument has a gate; nothing for a rest. (C) Pbind player: event k at start + sum of deltas; Ppar of three '
-      'children keeps each child\'s timeline; Pdur ends at the requested total -- all over symbolic durations.',
+      'children keeps each child\'s timeline; Pdur ends at the requested total (with quant: at the pattern\'s length '
+      'rounded up to the next multiple); a tuple of names as Pbind key; Pmono: one synth, later events as /n_set on '
+      'the timeline -- all over symbolic durations.',
       _TB + '; by design (source comment) ctranspose modifies midinote/note, not the degree path.',
       'symbolic execution of the real event classes / players in NRT + SMT validity of key chains and score timelines',
       'DESIGN.md 3/C14')
